@@ -439,22 +439,7 @@ func (nc *nodeCase) oracleReplay(when string) {
 	}
 	// the block height of a normal entry constrains nothing: compare it only for coinbase
 	// (maturity) and vote (lock) entries; spent non-coinbase records are equivalent to none
-	norm := func(d string) string {
-		m := splitDump(d)
-		var parts []string
-		for k, v := range m {
-			f := strings.Split(v, "/")
-			if len(f) == 3 && f[2] == "1" && f[0] != "c" {
-				continue // a spent normal / vote entry is as good as no entry: nothing can spend it
-			}
-			if len(f) == 3 && f[0] == "n" {
-				v = "n/-/" + f[2]
-			}
-			parts = append(parts, k+"="+v)
-		}
-		sort.Strings(parts)
-		return "utxo=" + strings.Join(parts, ",")
-	}
+	norm := normUtxoDump
 	got, want := norm(nc.sut.dumpUtxo(nc.ln)), norm(fresh.dumpUtxo(nc.ln))
 	if got != want {
 		// classify: only heights of restored (un-spent) vote outputs differ?
@@ -509,4 +494,26 @@ func diffDump(a, b map[string]string) string {
 	}
 	sort.Strings(out)
 	return "{" + strings.Join(out, " ") + "}"
+}
+
+// normUtxoDump: the block height of a normal entry constrains nothing (only coinbase maturity
+// and vote locks read it) and a spent non-coinbase record is equivalent to no record.
+func normUtxoDump(d string) string {
+	m := splitDump(d)
+	var parts []string
+	for k, v := range m {
+		f := strings.Split(v, "/")
+		if len(f) == 3 && f[2] == "1" && f[0] != "c" {
+			continue // a spent normal / vote entry is as good as no entry: nothing can spend it
+		}
+		if len(f) == 3 && f[0] == "n" {
+			v = "n/-/" + f[2]
+		}
+		parts = append(parts, k+"="+v)
+	}
+	sort.Strings(parts)
+	if len(parts) == 0 {
+		return "utxo=-"
+	}
+	return "utxo=" + strings.Join(parts, ",")
 }
